@@ -226,6 +226,10 @@ theorem select_declared_error (rs : List Resp) (s : Nat) (hs : 400 ≤ s ∧ s <
     (hd : ∃ x ∈ rs, x.key = .num s) : selectAction rs s = .raiseAlias s := by
   obtain ⟨x, hx, hk⟩ := hd
   have hns := not_starts2_of_error s hs
+  have hab : (aliasBase s).isSome = true := by
+    rw [Pog.Reg.aliasBase_isSome_iff, Pog.Reg.isErrorCode_iff]
+    obtain ⟨_, _, _, _, h5, h6⟩ := Pog.Reg.bounds_gen
+    omega
   have hxo : x ∈ otherResponses rs := by
     apply mem_otherResponses hx
     intro p n hp heq
@@ -233,7 +237,7 @@ theorem select_declared_error (rs : List Resp) (s : Nat) (hs : 400 ≤ s ∧ s <
     rw [← heq, hk, hns] at this
     cases this
   have hxa : otherArm x = some (s, .raiseAlias s) := by
-    rw [otherArm_num hk, hns]; rfl
+    rw [otherArm_num hk, hns]; simp [hab]
   have hex : ∃ a ∈ arms rs, a.1 = s := ⟨_, otherArm_mem_arms hxo hxa, rfl⟩
   have hall : ∀ a ∈ arms rs, a.1 = s → a.2 = Action.raiseAlias s := by
     intro a ha has
@@ -244,7 +248,7 @@ theorem select_declared_error (rs : List Resp) (s : Nat) (hs : 400 ≤ s ∧ s <
       cases h2
     · have hyk := otherArm_code (n := a.1) (a := a.2) hy
       rw [otherArm_num hyk, has, hns] at hy
-      simp only [Bool.false_eq_true, if_false, Option.some.injEq] at hy
+      simp only [Bool.false_eq_true, if_false, hab, if_true, Option.some.injEq] at hy
       rw [← hy]
   obtain ⟨a, hfa, ha2⟩ := find_arm hex hall
   unfold selectAction
